@@ -112,7 +112,8 @@ def _opacity_double(ctx, native, col, ktable=0):
 
 
 @harness('C13', 'opacity_selection',
-         quick=[dict(nn=3, nr=2, ktable=0, _shards=4), dict(nn=3, nr=2, ktable=2, _shards=4), dict(nn=3, nr=3, ktable=0, native_points=True)],
+         quick=[dict(nn=3, nr=2, ktable=0, _shards=4), dict(nn=3, nr=2, ktable=2, _shards=4), dict(nn=3, nr=3, ktable=0, native_points=True),
+                dict(nn=4, nr=3, ktable=0, _shards=8)],
          thorough=[dict(nn=4, nr=2, ktable=0, _shards=8), dict(nn=4, nr=3, ktable=0, _shards=16), dict(nn=4, nr=2, ktable=2, _shards=8),
                    dict(nn=4, nr=4, ktable=0, native_points=True), dict(nn=4, nr=3, ktable=2, native_points=True)],
          covers=['between_nodes'], functions=FUNCS, stubs=STUBS, shard_depth=4, max_paths=60000,
@@ -160,6 +161,13 @@ def opacity_selection(ctx, nn, nr, ktable, native_points=False):
             for j in range(nn - 1):
                 alts.append(ctx.and_(ctx.le(native[j], req[i]), ctx.le(req[i], native[j + 1]), _btw(ctx, v, c(j), c(j + 1))))
             ctx.goal('between_neighbours[%d,%s]' % (i, g), ctx.or_(alts))
+            if 0 < i < nr - 1:
+                # an interior requested point does not depend on which other points were requested: it is the linear
+                # interpolant of its two neighbouring native values (both are inside the selected range)
+                exact = [ctx.and_(ctx.le(native[j], req[i]), ctx.le(req[i], native[j + 1]), ctx.ne(native[j], native[j + 1]),
+                                  ctx.eq(v, c(j) + (c(j + 1) - c(j)) * (req[i] - native[j]) / (native[j + 1] - native[j])))
+                         for j in range(nn - 1)]
+                ctx.goal('interior_is_interpolant[%d,%s]' % (i, g), ctx.or_(exact))
 
 
 def _btw(ctx, v, a, b):
